@@ -16,6 +16,7 @@ import (
 	"net"
 	"net/http"
 	"net/http/httptest"
+	"os"
 	"runtime"
 	"strings"
 	"time"
@@ -52,6 +53,10 @@ func (chainErr) Error() string { return "chain error value" }
 type chainPtrErr struct{ msg string }
 
 func (e *chainPtrErr) Error() string { return e.msg }
+
+type chainValRecv struct{ n int }
+
+func (v chainValRecv) String() string { return fmt.Sprint(v.n) }
 
 type chainBadStringer struct{}
 
@@ -208,6 +213,17 @@ func (h *chainHandler) interpret(i int, cur **chainRun, c flamego.Context) {
 				}
 				panic(chainErr{})
 			case 'R':
+				switch i % 3 {
+				case 1:
+					// a runtime error raised inside a compiler-generated method wrapper (a value-receiver method called
+					// through an interface holding a nil pointer): its stack frame's file is "<autogenerated>", no slash
+					var p *chainValRecv
+					var s fmt.Stringer = p
+					_ = s.String()
+				case 2:
+					var xs []int
+					_ = xs[len(os.Args)+3] // index out of range
+				}
 				var m map[string]int
 				m["x"] = 1 // runtime error: assignment to entry in nil map
 			case 'T':
@@ -359,6 +375,8 @@ func execChain(args []string, lines [][]string) []string {
 	var hs []chainHandler
 	bad := false
 	var f *flamego.Flame
+	var preMw []flamego.Handler // the harness's own middleware in front of the session's
+	swapped := false
 	path := "/r"
 	cur := new(*chainRun)
 
@@ -376,7 +394,11 @@ func execChain(args []string, lines [][]string) []string {
 		// call, and a transparent one is added when needed, so that the middleware slice has spare
 		// capacity — the configuration in which sharing it between requests shows.
 		probe := "/zz-probe"
-		f.Use(func(c flamego.Context) {
+		useMw := func(h flamego.Handler) {
+			f.Use(h)
+			preMw = append(preMw, h)
+		}
+		useMw(func(c flamego.Context) {
 			if c.Request().URL.Path == probe {
 				c.ResponseWriter().WriteHeader(http.StatusNoContent) // the nested chain stops here
 				return
@@ -384,7 +406,7 @@ func execChain(args []string, lines [][]string) []string {
 			f.ServeHTTP(httptest.NewRecorder(), httptest.NewRequest(http.MethodGet, probe, nil))
 		})
 		for t := 1 + nmw; t&(t-1) == 0; t++ { // single-element appends: full exactly at the powers of two
-			f.Use(func() {})
+			useMw(func() {})
 		}
 		for _, fn := range fns[:nmw] {
 			f.Use(fn)
@@ -395,9 +417,25 @@ func execChain(args []string, lines [][]string) []string {
 		switch {
 		case ngrp == 0:
 			f.Route(method, "/r", rt)
+		case ngrp == 1 && (nmw+nrt)%2 == 1:
+			// a group that exists only to share handlers: no path of its own
+			f.Group("", func() { f.Route(method, "/r", rt) }, grp...)
+			path = "/r"
 		case ngrp == 1:
 			f.Group("/a", func() { f.Route(method, "/r", rt) }, grp...)
 			path = "/a/r"
+		case (nmw+nrt)%3 == 1: // two nested groups, the inner one without a path
+			k := (ngrp + 1) / 2
+			f.Group("/a", func() {
+				f.Group("", func() { f.Route(method, "/r", rt) }, grp[k:]...)
+			}, grp[:k]...)
+			path = "/a/r"
+		case (nmw+nrt)%3 == 2: // … the outer one without a path
+			k := (ngrp + 1) / 2
+			f.Group("", func() {
+				f.Group("/b", func() { f.Route(method, "/r", rt) }, grp[k:]...)
+			}, grp[:k]...)
+			path = "/b/r"
 		default: // two nested groups, the outer one holding the first half
 			k := (ngrp + 1) / 2
 			f.Group("/a", func() {
@@ -431,6 +469,24 @@ func execChain(args []string, lines [][]string) []string {
 				setEnv(dev)
 			}
 			outs = append(outs, serveChain(f, method, path, cur))
+		case len(l) == 1 && l[0] == "SWAPMW":
+			if bad || len(hs) != want || f == nil {
+				outs = append(outs, "bad-op")
+				continue
+			}
+			// Flame.Handlers replaces the whole stack: the session's middleware in the opposite order (position j now
+			// runs the program that was at position nmw-1-j, or back), behind the same harness middleware
+			swapped = !swapped
+			stack := append([]flamego.Handler(nil), preMw...)
+			for j := 0; j < nmw; j++ {
+				src := j
+				if swapped {
+					src = nmw - 1 - j
+				}
+				stack = append(stack, hs[src].handler(j, cur))
+			}
+			f.Handlers(stack...)
+			outs = append(outs, "swapped")
 		default:
 			outs = append(outs, "bad-op")
 		}
@@ -503,6 +559,11 @@ func emitChainM(emit Emit, dev int, lay chainLayout, hs []string, nreq int, meth
 	}
 	for i := 0; i < nreq; i++ {
 		emit("REQ")
+		// between two requests the application replaces its middleware stack by one of the same size (the same
+		// handlers in reverse order): the next request runs the NEW stack
+		if i+1 < nreq && lay.nmw >= 2 && (len(hs)+nreq+i)%2 == 0 {
+			emit("SWAPMW")
+		}
 	}
 }
 
